@@ -67,6 +67,9 @@ func (e *Enc) bindLoops(f *frame, con *Contract) {
 // cellEnv builds the name environment for invariants / postconditions of the
 // function in frame f: source variables resolve (lexically at pos) to their cells.
 func (e *Enc) cellEnv(f *frame, pos token.Pos, st *State) *Env {
+	if f.hookFrom != nil {
+		f, pos = f.hookFrom, f.hookPos
+	}
 	env := &Env{names: map[string]TV{}, oldNames: map[string]TV{}, st: st, old: f.entrySt}
 	pkg, _ := e.L.typesInfoFor(f.fn)
 	env.pkg = pkg
